@@ -99,6 +99,9 @@ def oracle_cuts(case):
     for k in case["ks"]:
         seq = gens.rotate(case["seq"], k)
         ent = cls(implutil.mk_circular(seq, "r"))
+        C02._ALIVE.append(ent)          # wrappers of earlier rotations stay alive while this one is asked
+        if len(C02._ALIVE) > 400:
+            del C02._ALIVE[:200]
         t = implutil.typed_info(ent)
         if not t["valid"]:
             if any(t.get(f) is not None for f in ("up", "down", "target")):
